@@ -165,37 +165,63 @@ def split_cases(tokens):
 
 def run_file(c2m, cases, base, tag, keep=False):
     """Render cases[base..] into one file, run both preprocessors.
-    Returns (c2m_results, gcc_results, c2m_status, gcc_status, path); results: index -> token list."""
+    Returns (c2m_results, gcc_results, c2m_status, gcc_status, path, errcases); results: index -> token list;
+    errcases: indices of the cases on whose lines c2m or gcc printed a diagnostic "file:line:"."""
     d = os.path.join(WORK, "run")
     os.makedirs(d, exist_ok=True)
     fn = os.path.join(d, "%s_%d.c" % (tag, base))
+    starts = []
     with open(fn, "w") as f:
-        f.write(PRELUDE[cases[0]["fam"]])
+        pre = PRELUDE[cases[0]["fam"]]
+        f.write(pre)
+        ln = pre.count("\n") + 1
         for i, c in enumerate(cases):
-            f.write("\n".join(render(c, base + i)) + "\n")
+            L = render(c, base + i)
+            starts.append(ln)
+            ln += len(L)
+            f.write("\n".join(L) + "\n")
     single = len(cases) == 1
-    st1, a = "ok", {}
+
+    def errcases(text):
+        res = set()
+        for mm in re.finditer(re.escape(fn) + r":(\d+):", text):
+            l = int(mm.group(1))
+            k = 0
+            while k + 1 < len(starts) and starts[k + 1] <= l:
+                k += 1
+            res.add(base + k)
+        return res
+
+    st1, a, ec = "ok", {}, set()
     try:
         with open(fn + ".err", "wb") as ferr:
             p1 = subprocess.run(["/bin/sh", "-c", 'ulimit -f 16384 -t 20 -v 4194304; exec "$0" -E "$1"', c2m, fn],
                                 stdout=subprocess.PIPE, stderr=ferr, timeout=4 if single else 30)
         with open(fn + ".err", "rb") as ferr:
-            err = ferr.read(2000).decode("utf-8", "replace")
+            err = ferr.read(1 << 20).decode("utf-8", "replace")
         a = split_cases(lex(p1.stdout.decode("utf-8", "replace"), True))
         if p1.returncode != 0:
             st1 = "rc%d:%s" % (p1.returncode, err.strip().splitlines()[0][-120:] if err.strip() else "")
+            ec |= errcases(err)
+            if not ec or p1.returncode != 1:
+                ec |= set(range(base, base + len(cases)))       # crash or unattributable error: every case is re-run alone
     except subprocess.TimeoutExpired:
         st1 = "timeout"
+        ec |= set(range(base, base + len(cases)))
     p2 = subprocess.run(["gcc", "-E", "-P", "-std=c11", fn], stdout=subprocess.PIPE, stderr=subprocess.PIPE, timeout=300)
     b = split_cases(lex(p2.stdout.decode("utf-8", "replace"), False))
-    st2 = "ok" if p2.returncode == 0 else "rc%d:%s" % (p2.returncode, p2.stderr.decode("utf-8", "replace").strip().splitlines()[0][-160:])
+    st2 = "ok"
+    if p2.returncode != 0:
+        e2 = p2.stderr.decode("utf-8", "replace")
+        st2 = "rc%d:%s" % (p2.returncode, e2.strip().splitlines()[0][-160:])
+        ec |= errcases(e2) or set(range(base, base + len(cases)))
     if not keep:
         for x in (fn, fn + ".err"):
             try:
                 os.unlink(x)
             except OSError:
                 pass
-    return a, b, st1, st2, fn
+    return a, b, st1, st2, fn, ec
 
 
 # ----------------------------------------------------------------------------------------------- verdicts
@@ -205,7 +231,7 @@ def despaced(ts):
 
 def if_match(pred, got):
     t = obs_tokens(pred)
-    return len(got) == 3 and all(x == y or x == "?" for x, y in zip(t, got))
+    return got is not None and len(got) == 3 and all(x == y or x == "?" for x, y in zip(t, got))
 
 
 def classify(c, exp, got, st1):
@@ -259,37 +285,61 @@ class Stats:
 
 
 def judge_batches(c2m, cases, tag, stats):
-    """Replay all cases (batched); failing or contaminated cases are re-run alone before they count."""
+    """Replay all cases (batched).  A case that fails in its batch is re-run before it counts (rule 5): alone, or - for the
+    stateless #if cases when there are many - in a second, differently composed batch first."""
     jobs = [(cases[i:i + BATCH], i) for i in range(0, len(cases), BATCH)]
     redo = []
+
+    def verdict(c, idx, ga, gb, st1, st2, final):
+        """TRUE if decided"""
+        e = expected(c)
+        if gb != e or st2 != "ok":
+            stats.cnt["spec_disagrees"] += 1
+            stats.spec_dis.append((c, e, ga, gb, st2))
+        elif ga == e and st1 == "ok":
+            stats.cnt["pass"] += 1
+            stats.cnt["pass_after_rerun"] += 1
+        elif final:
+            stats.fail.append((c, e, ga, gb, st1, classify(c, e, ga, st1)))
+        else:
+            return False
+        return True
+
     with ThreadPoolExecutor(NPAR) as ex:
-        for (cs, base), (a, b, st1, st2, fn) in zip(jobs, ex.map(lambda j: run_file(c2m, j[0], j[1], tag), jobs)):
+        for (cs, base), (a, b, st1, st2, fn, ec) in zip(jobs, ex.map(lambda j: run_file(c2m, j[0], j[1], tag), jobs)):
             for i, c in enumerate(cs):
                 e = expected(c)
-                if st1 != "ok" or st2 != "ok" or a.get(base + i) != e or b.get(base + i) != e:
-                    redo.append(([c], base + i))
+                if base + i in ec or a.get(base + i) != e or b.get(base + i) != e:
+                    redo.append((c, base + i, a.get(base + i)))
                 else:
                     stats.cnt["pass"] += 1
-        nbatchfail = len(redo)
-        for (cs, idx), (a, b, st1, st2, fn) in zip(redo, ex.map(lambda j: run_file(c2m, j[0], j[1], tag + "s"), redo)):
-            c = cs[0]
-            e = expected(c)
-            ga, gb = a.get(idx), b.get(idx)
-            if gb != e or st2 != "ok":
-                stats.cnt["spec_disagrees"] += 1
-                stats.spec_dis.append((c, e, ga, gb, st2))
-            elif ga == e and st1 == "ok":
-                stats.cnt["pass"] += 1
-                stats.cnt["pass_after_rerun_alone"] += 1
+        nredo = len(redo)
+        if len(redo) > 300 and cases[0]["fam"] == "if":
+            # second batch run of the failing cases only; identical failure twice = confirmed
+            redo2 = []
+            j2 = [(redo[i:i + 100], i) for i in range(0, len(redo), 100)]
+            for (rs, rb), (a, b, st1, st2, fn, ec) in zip(j2, ex.map(lambda j: run_file(c2m, [r[0] for r in j[0]], j[1], tag + "b"), j2)):
+                for k, (c, idx, ga1) in enumerate(rs):
+                    ga, gb = a.get(rb + k), b.get(rb + k)
+                    if rb + k in ec or ga != ga1 or ga is None or gb != expected(c):
+                        redo2.append((c, idx, ga1))
+                    else:
+                        verdict(c, idx, ga, gb, "ok", "ok", True)
+            redo = redo2
+        alone = list(ex.map(lambda r: run_file(c2m, [r[0]], r[1], tag + "s"), redo))
+        again = []
+        for (c, idx, _), (a, b, st1, st2, fn, ec) in zip(redo, alone):
+            if not verdict(c, idx, a.get(idx), b.get(idx), st1, st2, False):
+                again.append((c, idx, a.get(idx), b.get(idx), st1))
+        # a failure seen alone is confirmed by one more run alone
+        conf = list(ex.map(lambda r: run_file(c2m, [r[0]], r[1], tag + "r"), again))
+        for (c, idx, ga, gb, st1), (a2, b2, st1b, st2b, fn, ec) in zip(again, conf):
+            if a2.get(idx) == expected(c) and st1b == "ok":
+                stats.cnt["flaky"] += 1
+                stats.fail.append((c, expected(c), ga, gb, st1, "cpp:flaky_result"))
             else:
-                # confirm once more (rule 5) before it counts
-                a2, b2, st1b, _, _ = run_file(c2m, [c], idx, tag + "r")
-                if a2.get(idx) == e and st1b == "ok":
-                    stats.cnt["flaky"] += 1
-                    stats.fail.append((c, e, ga, gb, st1, "cpp:flaky_result"))
-                else:
-                    stats.fail.append((c, e, ga, gb, st1, classify(c, e, ga, st1)))
-    return nbatchfail
+                verdict(c, idx, ga, gb, st1, "ok", True)
+    return nredo
 
 
 # ----------------------------------------------------------------------------------------------- TLC side
@@ -409,7 +459,7 @@ def replay(path):
     d = json.load(open(path))
     c = d["case"]
     c2m = build_c2m()
-    a, b, st1, st2, fn = run_file(c2m, [c], 0, "replay", keep=True)
+    a, b, st1, st2, fn, _ = run_file(c2m, [c], 0, "replay", keep=True)
     e = expected(c)
     print("source file:", fn)
     print(open(fn).read())
